@@ -16,7 +16,7 @@ EXPLANATION = (
     "checks the phase order in compile(); R4-R6 share the binding-discipline, cycle-rejection and status-conversion rules "
     "of C08, C09 and C04, on which the agreement argument rests. This decides a necessary structural condition of soundness, not the whole "
     "soundness theorem (arity/unification correctness, emitter panics and stack depth are not decided).")
-EXPLANATION += " Further clauses added after the independent seeded rounds: (R7) the structural clauses of the unifier (shared C07); (R8) implicit naming and completeness of the definition graph (shared C09.R2/R4); (R9) CHECK-TOTAL - a kind check is skipped on a succeeding path only by a condition about its own position or by an operator/kind guard; (R10) ARGS-AGREE - inference and evaluation take an application's arguments from the same accessor; (R11) EMIT-TOTAL - an emitter function that is partial in SchemaExpr is only handed the other variants; (R12) VAR-UNIFORM - all kind predicates treat an unresolved tag alike."
+EXPLANATION += " Further clauses added after the independent seeded rounds: (R7) the structural clauses of the unifier (shared C07); (R8) implicit naming and completeness of the definition graph (shared C09.R2/R4); (R9) CHECK-TOTAL - a kind check is skipped on a succeeding path only by a condition about its own position or by an operator/kind guard; (R10) ARGS-AGREE - inference and evaluation take an application's arguments from the same accessor; (R11) EMIT-TOTAL - an emitter function that is partial in SchemaExpr is only handed the other variants; (R12) VAR-UNIFORM - all kind predicates treat an unresolved tag alike. (R13) CONCAT-PATH (shared C02.R12)."
 ASSUMPTIONS = [
     "a node's run-time value is one of the Expr variants constructed by the eval_* function of its syntax kind (or reached by the language's delegation rules: sum, reference, recursion, application)",
     "panic sites inside cast_* are the explicit panic!/unreachable! arms (no hidden panics in callees of casts)",
